@@ -181,33 +181,50 @@ def r3_stale_contribute_nothing(run):
     run.require(len(merges) == 1, "get_identity: merge loop vanished")
     mg = merges[0]
     hs = [h for h in excflow.handlers_of(fi, m) if h.caught == ["ToOld"]]
-    ok = len(hs) == 1 and hs[0].dispositions == {"continue"} and \
-        "get" in hs[0].body_calls()
+    gets = [nd for nd in cfg.by_kind("stmt") if isinstance(nd.ast, ast.Assign)
+            and isinstance(nd.ast.value, ast.Call) and
+            attr_chain(nd.ast.value.func) == "self.get" and
+            isinstance(nd.ast.targets[0], ast.Name)]
+    run.require(gets and len({g.ast.targets[0].id for g in gets}) == 1,
+                "get_identity: `info = self.get(...)` vanished")
+    gets.sort(key=lambda g: g.ast.lineno)
+    iname = gets[0].ast.targets[0].id
+    ok = len(hs) == 1 and "get" in hs[0].body_calls()
     run.check(ok, "R3", fi.qual + "::ToOld=>skip",
-              "an expired source is skipped (continue)",
-              "the ToOld handler no longer skips the source: %s" %
+              "the expiry of one source is caught per source",
+              "the ToOld handler around get() changed: %s" %
               [sorted(h.dispositions) for h in hs], fi.loc())
     if hs:
+        # whether the handler says `continue` itself or marks the source as
+        # having no information and lets the common path skip it: within the
+        # same iteration the merge is unreachable and the source is reported
         exc = {n.id for n in cfg.nodes if n.kind == "exc"}
-        reach = cfg.reachable_from(hs[0].cfgnode, avoid=[
-            h.id for h in cfg.by_kind("for")] + list(exc))
-        run.check(mg.id not in reach, "R3", fi.qual + "::expired-not-merged",
+        heads = [h.id for h in cfg.by_kind("for")]
+        wit = cfg.flag_search(hs[0].cfgnode, {iname: "U"},
+                              lambda n, vd: n == mg.id,
+                              avoid=set(heads) | exc)
+        run.check(wit is None, "R3", fi.qual + "::expired-not-merged",
                   "the merge is unreachable from the ToOld handler within the "
                   "same iteration", "attributes of an expired source can be "
-                  "merged", fi.loc())
-        app = [c for c in calls_named(hs[0].handler, "append")]
-        run.check(len(app) == 1 and attr_chain(app[0].func) == "oldees.append"
-                  and unparse(app[0].args[0]) == "entity_id", "R3",
+                  "merged", fi.loc(),
+                  witness=cfg.describe_path(wit) if wit else None)
+        rep = [nd.id for nd, c in cfg.call_nodes("append")
+               if len(c.args) == 1 and unparse(c.args[0]) == "entity_id" and
+               attr_chain(c.func) != "res.append"]
+        out = set(heads) | {r.id for r in cfg.by_kind("return")} | \
+            {cfg.return_exit}
+        wit = cfg.flag_search(hs[0].cfgnode, {iname: "U"},
+                              lambda n, vd: n in out,
+                              avoid=set(rep) | exc)
+        run.check(bool(rep) and wit is None, "R3",
                   fi.qual + "::expired-reported", "reported as stale",
-                  "expired source is not reported", fi.loc(), nontrivial=False)
-    tests = [t for t in cfg.by_kind("test") if unparse(t.ast) == "not info"]
-    ok = bool(tests)
-    if ok:
-        tb = [b for b in cfg.succ[tests[0].id] if cfg.nodes[b].kind == "true"]
-        reach = cfg.reachable_from(tb[0], avoid=[h.id for h in
-                                                 cfg.by_kind("for")])
-        ok = mg.id not in reach
-    run.check(ok, "R3", fi.qual + "::empty-not-merged",
+                  "expired source is not reported", fi.loc(),
+                  witness=cfg.describe_path(wit) if wit else None)
+    # a source whose get() answered nothing (falsy) never reaches the merge
+    wit = cfg.flag_search(gets[0].id, {}, lambda n, vd: n == mg.id,
+                          avoid=[h.id for h in cfg.by_kind("for")],
+                          assume={iname: "F"})
+    run.check(wit is None, "R3", fi.qual + "::empty-not-merged",
               "a reset/empty source is skipped",
               "an empty (reset) source reaches the merge", fi.loc())
     gs = cfg.call_nodes("get")
@@ -258,6 +275,18 @@ def r4_delete_reset(run):
               r.qual + "::empty+0",
               "set(name_id, entity_id, {}, 0)", "reset() calls set(%s)" % got,
               r.loc())
+    # ... on every path: an expired or otherwise inactive source is scrapped too
+    rcfg = cfg_of(r, m)
+    sn = [nd.id for nd, c in rcfg.call_nodes("set")]
+    exc = [n.id for n in rcfg.nodes if n.kind == "exc"]
+    wit = rcfg.path(rcfg.entry, rcfg.return_exit, set(sn) | set(exc)) \
+        if sn else None
+    run.check(bool(sn) and wit is None, "R4", r.qual + "::unconditional",
+              "every normal path of reset() stores the empty record",
+              "reset() can return without scrapping the source: its attributes "
+              "stay in the cache and are served by reads that do not check "
+              "expiry", r.loc(),
+              witness=rcfg.describe_path(wit) if wit else None)
     g = m.func(C + "get")
     rets = [unparse(x.value) for x in walk_no_nested(g.node)
             if isinstance(x, ast.Return)]
